@@ -117,7 +117,7 @@ def rule_constructors(ctx):
     # Utf32Str::new clears the buffer before extending
     nf = get_fn(facts, M, ctors[0])
     clr = [bi for bi, t in nf.calls(lambda t: callee(t).endswith("Vec::<T, A>::clear"))]
-    ext = [bi for bi, t in nf.calls(lambda t: callee(t).endswith("::extend"))]
+    ext = [bi for bi, t in nf.calls(lambda t: callee(t).endswith("::extend") or (callee(t).endswith("::push") and "Vec" in callee(t)) or callee(t).endswith("::extend_from_slice"))]
     if clr and ext and all(nf.dominates(clr[0], e) for e in ext):
         ctx.ok(site(nf, clr[0]), "buffer-based constructor clears the buffer before filling it")
     else:
